@@ -462,8 +462,20 @@ def f2(cfg, k=3):
   return fdl.Config(fam.g1, x=cfg.x + k, y=cfg.y, z=cfg.__arguments__.get('z'))
 
 
+FLAKY = {'calls': 0}
+
+
+def f_once(cfg):
+  """Changes the configuration and then fails - on its first invocation only."""
+  FLAKY['calls'] += 1
+  cfg.x = cfg.x + 100
+  if FLAKY['calls'] == 1:
+    raise RuntimeError('flaky fiddler')
+
+
 DIRECTIVES = ['config:base', 'config:base2(2)', 'config_str:@', 'set:x=1', 'set:x=2', 'set:y.x=3', 'fiddler:f1',
-              'fiddler:f2(k=5)', 'bogus', 'set:y.x=x=4']
+              'fiddler:f2(k=5)', 'bogus', 'set:y.x=x=4', 'fiddler:f_once']
+ND = len(DIRECTIVES)
 
 
 def _ref_run(seq):
@@ -500,6 +512,8 @@ def _ref_run(seq):
       else:
         if expr == 'f1':
           f1(cfg)
+        elif expr == 'f_once':
+          raise RuntimeError('flaky fiddler')      # its first (and only legitimate) invocation fails
         else:
           cfg = f2(cfg, k=5)
   except Exception:  # pylint: disable=broad-except
@@ -511,10 +525,10 @@ def c18_directives(n: int, d0: int, d1: int, d2: int, d3: int, split: int, reads
   """
   A FiddleFlag applies its directives strictly in command-line order, whatever the parse() grouping (split: bit i =
   new parse() call before directive i) and whenever .value is read in between (reads: bit i = read after directive i).
-  require: 1 <= n <= 4 and 0 <= d0 < 10 and 0 <= d1 < 10 and 0 <= d2 < 10 and 0 <= d3 < 10 and 0 <= split < 16 and 0 <= reads < 16
+  require: 1 <= n <= 4 and 0 <= d0 < 11 and 0 <= d1 < 11 and 0 <= d2 < 11 and 0 <= d3 < 11 and 0 <= split < 16 and 0 <= reads < 16
   """
   import crosshair
-  n, d0, d1, d2, d3 = _conc(n, 1, 4), _conc(d0, 0, 9), _conc(d1, 0, 9), _conc(d2, 0, 9), _conc(d3, 0, 9)
+  n, d0, d1, d2, d3 = _conc(n, 1, 4), _conc(d0, 0, ND - 1), _conc(d1, 0, ND - 1), _conc(d2, 0, ND - 1), _conc(d3, 0, ND - 1)
   split, reads = _conc(split, 0, 15), _conc(reads, 0, 15)
   with crosshair.NoTracing():
     from absl import flags as absl_flags
@@ -526,6 +540,7 @@ def c18_directives(n: int, d0: int, d1: int, d2: int, d3: int, split: int, reads
                                 help_string='h', default_module=sys.modules[__name__])
     note('c18d', n, d0, d1, d2, d3, split, reads)
     got = None
+    FLAKY['calls'] = 0
     try:
       group = []
       for i, d in enumerate(real):
@@ -543,7 +558,14 @@ def c18_directives(n: int, d0: int, d1: int, d2: int, d3: int, split: int, reads
     except Exception:  # pylint: disable=broad-except
       got = ('error',)
     if want[0] == 'error' or got[0] == 'error':
-      # an early read may surface the error before later directives are even parsed: both must end in an error
+      # an early read may surface the error before later directives are even parsed: both must end in an error.  A
+      # caller that catches the error and reads again must not see a directive applied a second time.
+      try:
+        _ = flag.value
+      except Exception:  # pylint: disable=broad-except
+        pass
+      if FLAKY['calls'] > seq.count('fiddler:f_once'):
+        return False
       return want[0] == got[0]
     return got == want
 
@@ -626,19 +648,19 @@ def obligations(tier, seed):
   # thorough: all sequences of length <= 3 under every grouping / read schedule; length 4 under 20 schedules
   dcubes = []
   for n in range(1, 5):
-    for d0 in range(10):
-      for d1 in range(10):
+    for d0 in range(ND):
+      for d1 in range(ND):
         if n == 1 and d1:
           continue
         fix = dict(n=n, d0=d0, d1=d1)
         for j in range(max(n, 2), 4):
           fix[f'd{j}'] = 0
         pre = ['split in (0, 5, 10) and reads in (0, 5, 10, 15)'] if n == 4 else []
-        dcubes.append(Cube(f'n{n}_d{d0}_{d1}', pre, fix, est=10 ** max(n - 2, 0) * (12 if n == 4 else 256)))
+        dcubes.append(Cube(f'n{n}_d{d0}_{d1}', pre, fix, est=11 ** max(n - 2, 0) * (12 if n == 4 else 256)))
   if tier == 'quick':
     dcubes = []
     for n in range(1, 5):
-      for d0 in range(10):
+      for d0 in range(ND):
         if n == 4 and d0 not in (0, 1, 2):
           continue            # (a sequence that does not start with a base config fails at once: covered by n <= 3)
         pre = []
@@ -649,7 +671,7 @@ def obligations(tier, seed):
         fix = dict(n=n, d0=d0)
         for j in range(n, 4):
           fix[f'd{j}'] = 0                 # unused positions
-        dcubes.append(Cube(f'n{n}_d{d0}', pre, fix, est=10 ** (n - 1) * (4 if n == 4 else 12)))
+        dcubes.append(Cube(f'n{n}_d{d0}', pre, fix, est=11 ** (n - 1) * (4 if n == 4 else 12)))
   t = 300 if tier == 'quick' else 1200
   return [
       Obligation('c18_grammar', kind='direct', run=(lambda tier=tier: run_grammar(tier)),
